@@ -36,6 +36,10 @@ func (w *Worker) chanSend(fr *frame, c *Chan, v Value, pos token.Pos) {
 	if c.closed {
 		panic(targetPanic{v: Iface{t: w.rtErrType, v: mkStr("send on closed channel")}, where: fr.where(pos)})
 	}
+	if w.boundedChans && c.cap > 0 && len(c.buf) >= c.cap {
+		// run-to-completion order: every goroutine that could receive has already finished, so this send blocks forever
+		panic(targetPanic{v: Iface{t: w.rtErrType, v: mkStr("all goroutines are asleep - deadlock (send on a full channel that nobody will drain)")}, where: fr.where(pos)})
+	}
 	old := c.buf
 	c.buf = append(c.buf[:len(c.buf):len(c.buf)], copyVal(v))
 	if w.logging {
